@@ -456,6 +456,7 @@ class Stream:
 
     def __init__(self, ex, rows, name="t", symbolic_gaps=True, indents=None, final_newline=True):
         self.ex = ex
+        self.indents = indents or [0] * len(rows)   # indentation width (columns) of each row
         self.rows = rows
         self.name = name
         self.symbolic_gaps = symbolic_gaps
@@ -474,8 +475,10 @@ class Stream:
                     g = ex.int(f"{name}g{r}_{i}", 0, None)
                 else:
                     g = 0 if i == 0 else 1
+                if i == 0:
+                    g = 0
                 gs.append(g)
-                start = g if col is None else col + g
+                start = self.indents[r] + g if col is None else col + g
                 end = start + len_term(slot)
                 ss.append(start)
                 es.append(end)
@@ -486,7 +489,7 @@ class Stream:
 
     # -- rendering (from a model) --
     def render_row(self, r, model):
-        out = []
+        out = [" " * self.indents[r]]
         for i, slot in enumerate(self.rows[r]):
             g = self.gaps[r][i]
             gv = g if isinstance(g, int) else model.eval(g, model_completion=True).as_long()
@@ -512,8 +515,16 @@ class Stream:
         """generator in the shape `generate_tokens` produces (WS tokens for non-empty gaps, NEWLINE per row, ENDMARKER)"""
         T = self.T
         ex = self.ex
+        stack = [0]
         for r, row in enumerate(self.rows):
             line = Opaque(lambda m, r=r: self.render_row(r, m))
+            ind = self.indents[r]
+            if ind > stack[-1]:
+                stack.append(ind)
+                yield T.TokenInfo(T.Token.INDENT, " " * ind, (r + 1, 0), (r + 1, ind), line)
+            while ind < stack[-1]:
+                stack.pop()
+                yield T.TokenInfo(T.Token.DEDENT, "", (r + 1, ind), (r + 1, ind), line)
             for i, slot in enumerate(row):
                 g = self.gaps[r][i]
                 if i > 0 and not (isinstance(g, int) and g == 0):
@@ -521,7 +532,9 @@ class Stream:
                         self.tokenizer._proc_macro or self.tokenizer._call_macro or self.tokenizer._with_macro)
                     prev_end = self.ends[r][i - 1]
                     if isinstance(g, int):
-                        yield T.TokenInfo(T.Token.WS, " " * g, (r + 1, prev_end), (r + 1, self.starts[r][i]), line)
+                        a_, b_ = prev_end, self.starts[r][i]
+                        yield T.TokenInfo(T.Token.WS, " " * g, (r + 1, a_ if isinstance(a_, int) else SymInt(a_)),
+                                          (r + 1, b_ if isinstance(b_, int) else SymInt(b_)), line)
                     elif raw:
                         if ex.branch(g > 0):
                             n = ex.int_value(g, 1, 3)
@@ -536,33 +549,40 @@ class Stream:
             else:
                 yield T.TokenInfo(T.Token.NEWLINE, "", (r + 1, L), (r + 1, L + 1), "")
         n = len(self.rows) + (1 if self.final_newline else 1)
+        for _ in stack[1:]:
+            yield T.TokenInfo(T.Token.DEDENT, "", (n, 0), (n, 0), "")
         yield T.TokenInfo(T.Token.ENDMARKER, "", (n, 0), (n, 0), "")
 
     def witness(self, prefer_distinct=True):
-        """a model of the path condition; with symbolic gaps prefer pairwise distinct positive gaps so that
-        every token boundary has its own column (used for span lifting)"""
+        """a model of the path condition; with symbolic gaps prefer pairwise different positive gaps so that
+        every token boundary has its own column (used for span lifting).  Preferences are assumption literals;
+        the ones in an unsat core are dropped."""
         ex = self.ex
         if self.symbolic_gaps and prefer_distinct:
-            extra = []
+            prefs = []
             n = 1
             for r, gs in enumerate(self.gaps):
                 for i, g in enumerate(gs):
                     if not isinstance(g, int):
-                        extra.append(g == (n % 3) + 1 if i else g == 0)
+                        prefs.append(g == (n % 3) + 1)
                         n += 1
-            ex.solver.push()
-            try:
-                # soft preference: drop constraints from the end until satisfiable
-                while True:
-                    r_ = ex.check(*extra)
+            for _ in range(6):
+                if not prefs:
+                    break
+                lits = [z3.Bool(f"__pref{j}") for j in range(len(prefs))]
+                ex.solver.push()
+                try:
+                    for l, p in zip(lits, prefs):
+                        ex.solver.add(z3.Implies(l, p))
+                    r_ = ex.check(*lits)
                     if r_ == z3.sat:
-                        m = ex.solver.model()
-                        return m
-                    if not extra:
-                        break
-                    extra.pop()
-            finally:
-                ex.solver.pop()
+                        return ex.solver.model()
+                    core = {str(c) for c in ex.solver.unsat_core()}
+                finally:
+                    ex.solver.pop()
+                if not core:
+                    break
+                prefs = [p for l, p in zip(lits, prefs) if str(l) not in core]
         return ex.get_model()
 
 
@@ -644,3 +664,51 @@ def parse_stream(stream: Stream, mode="exec", **kw):
         return "HANG", None
     except Exception as e:  # noqa: BLE001
         return classify(e, R), e
+
+
+def rows_from_text(text):
+    """(indents, rows of concrete Slots) for a text whose logical lines are single physical lines without comments
+    inside brackets and without tokens spanning lines; None when the text does not have that shape"""
+    X = repo().real
+    T = X.tokenize.Token
+    try:
+        toks = list(X.tokenize.generate_tokens(text))
+    except Exception:  # noqa: BLE001
+        return None
+    rows, indents = [], []
+    cur = []
+    cur_line = None
+    for t in toks:
+        if t.start[0] != t.end[0] and t.type not in (T.NEWLINE, T.NL):
+            return None
+        if t.type in (T.WS, T.COMMENT, T.INDENT, T.DEDENT, T.ENDMARKER):
+            continue
+        if t.type == T.NL:
+            if cur:
+                return None   # NL inside a logical line (bracket continuation)
+            continue
+        if t.type == T.NEWLINE:
+            if cur:
+                rows.append(cur)
+                cur = []
+                cur_line = None
+            continue
+        if t.type == T.ERRORTOKEN:
+            return None
+        if cur_line is None:
+            cur_line = t.start[0]
+            line = t.line
+            ind = len(line) - len(line.lstrip(" "))
+            if line[:ind + 1].strip(" ") and line[ind] in "\t\f":
+                return None
+            if t.start[1] != ind:
+                return None
+            indents.append(ind)
+        elif t.start[0] != cur_line:
+            return None    # backslash continuation
+        cur.append(Slot(kind=(t.type.name, t.string)))
+    if cur:
+        rows.append(cur)
+    if len(rows) != len(indents) or not rows:
+        return None
+    return indents, rows
